@@ -25,6 +25,10 @@ def hard_note(g):
         lambda: ((w() + ' ' + w()).encode(), w().encode()),             # blank inside the name
         lambda: (w().encode(), (w() + '  ' + w()).encode()),            # two blanks inside the value
         lambda: (b'', ('http://' + w() + '/' + w()).encode()),           # a text note that contains a colon
+        lambda: (b'', (w() + ' 18%').encode()),                          # printf verbs in a text note
+        lambda: (b'', ('50% ' + w() + ' %s %d').encode()),
+        lambda: (w().encode(), ('18% ' + w() + '%').encode()),           # ... and in a value
+        lambda: ((w() + '%').encode(), w().encode()),                   # ... and in a name
     ])()
 
 
